@@ -173,6 +173,7 @@ type vhFrameConn struct {
 	partials                        int
 	viaTLS                          bool
 	tlsWrites                       int
+	wfails                          int // writes that failed for good
 	plainWrites                     int
 	handshakes                      int
 	hsReadDeadline, hsWriteDeadline int64
@@ -194,6 +195,7 @@ func (c *vhFrameConn) Write(p []byte) (int, error) {
 		c.timeouts++
 		return 0, vhTimeoutErr{}
 	default:
+		c.wfails++
 		return 0, errVhStub
 	}
 }
@@ -645,4 +647,57 @@ func HarnessC09TCPEncryption() {
 	vAssert(t.SetEncryption(ctx, SessionEncryptionNone) != nil, "c09:downgrade-is-refused")
 	vAssert(t.SetEncryption(ctx, SessionEncryptionTLS) == nil, "c09:same-value-after-upgrade-is-a-no-op")
 	vAssert(conn.handshakes == 1, "c09:no-second-handshake")
+}
+
+// HarnessC10TCP: the documented case - EncryptionOptions(TLS) on a TLS-capable TCP connection (a
+// tls.Config with static or dynamically chosen certificates): the real tcpTransport reports TLS as
+// supported, so the server's first answer to `new` offers exactly [tls] and no credentials are requested
+// while the connection is still cleartext.
+func HarnessC10TCP() {
+	in := vStreamNew("in")
+	conn := &vhFrameConn{in: in, maxTimeouts: 1, maxFrag: 1}
+	t := vhNewTCP(conn, 4096)
+	t.server = true
+	if vhChoice("certs", 2) == 0 {
+		t.TLSConfig = &tls.Config{Certificates: make([]tls.Certificate, 1)}
+	} else {
+		// certificates chosen per connection
+		t.TLSConfig = &tls.Config{GetCertificate: func(*tls.ClientHelloInfo) (*tls.Certificate, error) { return nil, errVhStub }}
+	}
+	b, _ := json.Marshal(&Session{State: SessionStateNew})
+	vStreamPut(in, b, 128)
+	vStreamClose(in)
+	sc := NewServerChannel(t, 1, Node{Identity{"postmaster", "srv"}, "s1"}, vhSID)
+	ctx, cancel := context.WithTimeout(context.Background(), 300*time.Millisecond)
+	defer cancel()
+	_ = sc.EstablishSession(ctx, []SessionCompression{SessionCompressionNone}, []SessionEncryption{SessionEncryptionTLS},
+		[]AuthenticationScheme{AuthenticationSchemeGuest},
+		func(ctx context.Context, id Identity, a Authentication) (*AuthenticationResult, error) {
+			return MemberAuthenticationResult(), nil
+		},
+		func(ctx context.Context, n Node, c *ServerChannel) (Node, error) { return n, nil })
+	vReach("c10:tcp-handshake-returned")
+	if conn.cut || conn.timeouts > 0 || conn.wfails > 0 {
+		return
+	}
+	vAssert(len(conn.frames) >= 1, "c10:tcp-server-answers-new")
+	for i := 0; i < len(conn.frames); i++ {
+		var raw rawEnvelope
+		if json.Unmarshal(conn.frames[i], &raw) != nil {
+			continue
+		}
+		e, err := raw.toEnvelope()
+		if err != nil {
+			continue
+		}
+		s, ok := e.(*Session)
+		if !ok {
+			continue
+		}
+		if i == 0 {
+			vAssert(s.State == SessionStateNegotiating && len(s.EncryptionOptions) == 1 && s.EncryptionOptions[0] == SessionEncryptionTLS,
+				"c10:tcp-first-answer-offers-exactly-tls")
+		}
+		vAssert(s.State != SessionStateAuthenticating && s.State != SessionStateEstablished, "c10:tcp-no-credentials-requested-in-cleartext")
+	}
 }
